@@ -9,5 +9,10 @@ CONSTANTS
   HistClients = {"lighthouse", "teku"}
   HistOutcomes = {"accept", "reject", "treject", "slowok", "late", "hang"}
   Design = "cacheok"
+  MaxLat = 2
+  CanonOuts = {}
+  ConfSets = {}
+  OtherSets = {}
+  RefKind = "att"
 INVARIANTS TypeOK FlagSound TimeoutSignalHeard OfferedInFull SuccessIff ReturnsByTimeout Independence ClassifiedByNow
 CHECK_DEADLOCK FALSE
